@@ -235,3 +235,22 @@ Definition o_flat (p : option prof) : out :=
 
 Definition o_categorical (probs : list float) (us : list float) : out :=
   o_ok [OL (map (fun u => onat (@categorical FNum probs u)) us)].
+
+(** ** Observer-mode support (C10): what the sampling sites must be shown *)
+Definition o_chance_table (r : res fgame) : out :=
+  match r with
+  | Ok g => o_ok [OL (map ofl (g_chance g))]
+  | Err _ => o_skip
+  end.
+
+(** current strategies ([strat] of every infoset, player one then player two) after [k]
+    unthresholded iterations *)
+Definition o_strats_after (r : res fgame) (m : method) (draw : @oracle FNum) (p : option fparams)
+           (k : N) : out :=
+  match r, p with
+  | Ok g, Some p =>
+      let '(st, _, _) := @solve_loop FNum g m draw p (fun _ => false) (N.to_nat k) 1%N
+                                     (@init_state FNum g) None 0%N in
+      o_ok [OL (map (fun ri => ofl (@strat FNum ri)) (fst st)); OL (map (fun ri => ofl (@strat FNum ri)) (snd st))]
+  | _, _ => o_skip
+  end.
